@@ -8,6 +8,7 @@
   tag items are tied to the code by the correspondence check only).
 -/
 import Ctrmml.Proofs.MdsPitch
+import Ctrmml.Proofs.MdsBase
 namespace Ctrmml.MdsData
 open Ctrmml.MdsSpec
 
@@ -37,6 +38,31 @@ theorem C11_fm_2op_spec (b : NBytes) (d : FmDef) (hd : decodeFm b = some d) (hby
 example : ∃ b d, decodeFm b = some d ∧ (∀ x ∈ b, x < 256) ∧ d.op4.tl ≠ d.op2.tl :=
   ⟨fm4opBytes [4, 0, 20, 5, 0, 1, 1, 9, 0, 4, 7, 0, 31, 8, 4, 7, 2, 0, 0, 4, 0, 0, 20, 5, 0, 1, 1, 9, 0, 1, 7, 0,
       31, 8, 4, 7, 2, 127, 0, 1, 0, 0] 48, _, rfl, by decide, by decide⟩
+
+/-- the base of a 2op definition is always a 30-byte FM register image.  `FmInv st`: every id
+whose `ins_type` is `INS_FM` has an `envelope_map` entry that points at a 30-byte bank entry.  It
+holds in every state `read_song` reaches, for every tag list (so at every call of
+`add_ins_fm_2op`, which happens in the state reached on a prefix of the tags), whatever the
+definitions are: ids redefined through other keys (`@1` / `@01`), empty PSG tags, failures. -/
+theorem C11_fm_base_inv {α} (A : Arith α) (noext : Bool) (tags : List (String × List String)) :
+    FmInv (readSong A noext tags).1 :=
+  FmInv_readTags A tags (initState noext) (FmInv_init noext)
+
+/-- …and in such a state `add_ins_fm_2op` succeeds only when the referenced instrument is of type
+FM, its image — the `base` given to `fm2opBytes`, hypothesis of `C11_fm_2op_spec` up to
+`decodeFm` — has exactly 30 bytes, and the invariant is kept.  Before fix 85bdeee a PSG
+envelope of 2 bytes could be the base: `fm_data[27]`, `fm_data[29]` were written past its size
+and the player read 30 bytes from it. -/
+theorem C11_fm_2op_base (st st' : State) (id : Nat) (tag : List String) (hinv : FmInv st)
+    (h : addInsFm2op st id tag = .ok st') :
+    ∃ bi base, mget st.envMap (nth ((tag.take 6).map fun t => u8 (tokVal t)) 0) = some bi ∧
+      st.bank[bi.toNat]? = some base ∧ base.length = 30 ∧ FmInv st' := by
+  obtain ⟨h1, bi, base, e1, e2, e3⟩ := FmInv_fm2op st st' id tag hinv h
+  exact ⟨bi, base, e1, e2, e3, h1⟩
+
+/-- the invariant is not vacuous: after an FM and a 2op definition both ids are of type FM -/
+example : mget (readSong Arith.rat false [("@1", "fm" :: (List.replicate 42 "1")), ("@2", ["2op", "1", "2", "3", "4", "5", "0"])]).1.tyMap 2
+    = some (Tables.mdsdrv_INS_FM : Int) := by decide
 
 /-- PSG envelopes, for EVERY arithmetic `A` whose single slides have the slide shape
 (`SlideOK A`: for all initial, target ≤ 15 and 1 ≤ length ≤ 255 the frame values of
